@@ -176,6 +176,24 @@ def _dq(s, v):
         d = (fp - fm) / (2 * h)
         if not abs(lin[j] - d) <= tol * (1 + abs(d)):
             bad.append((j, float(lin[j]), d))
+    if not bad and s['sur'] == 'nn_rbf':
+        # the same scenario with the other radial basis function families (compactly supported and the multiquadric)
+        import openmdao.api as om
+        for fam in (-1, 1, 3):     # (the multiquadric -3 is left out: see DESIGN.md 16.8)
+            try:
+                sf = om.NearestNeighbor(interpolant_type='rbf', rbf_family=fam)
+                sf.train(x.copy(), y.copy())
+                linf = np.asarray(sf.linearize(q.copy()), dtype=float).reshape(-1)
+                for j in range(len(q)):
+                    e = np.zeros(len(q))
+                    e[j] = h
+                    fp = float(np.asarray(sf.predict(q + e)).ravel()[0])
+                    fm = float(np.asarray(sf.predict(q - e)).ravel()[0])
+                    d = (fp - fm) / (2 * h)
+                    if not (abs(linf[j] - d) <= tol * (1 + abs(d))):
+                        bad.append(('rbf_family=%d' % fam, j, float(linf[j]), d))
+            except Exception:
+                pass            # families that refuse the training set (dimension / size) are not judged
     return {'bad': bad, 'clause': '%s: linearize differs from the central difference quotient of predict' % s['sur']}
 
 
